@@ -32,6 +32,7 @@ REWRITE_TABLE = [
     "<e>.astype(T), <e>.to_numpy(T) -> proxy cells: int = element-wise truncation, float = identity",
     "np.isnan(x)          -> proxy: False, None: True (object columns hold None where float64 holds NaN)",
     "np.lcm(a,b)          -> proxy: solver-driven concretisation, then numpy",
+    "np.asarray / np.array(x, dtype=T) on cells holding proxies -> object array, T applied as in astype",
     "np.isclose(a,b,..)   -> proxy: |a-b| <= atol + rtol*|b| element-wise (forks); np.isfinite -> proxy: True",
     "unpack / struct.unpack(fmt, b) -> harness stub for marked fields, else struct.unpack",
     "yaml.safe_load / yaml.dump     -> harness stub at document level when installed, else PyYAML",
@@ -39,7 +40,7 @@ REWRITE_TABLE = [
 ]
 
 NAME_CALLS = {"int", "float", "round", "Fraction", "unpack"}
-NP_CALLS = {"isnan", "lcm", "isclose", "isfinite"}
+NP_CALLS = {"isnan", "lcm", "isclose", "isfinite", "asarray", "array"}
 MOD_CALLS = {("struct", "unpack"): "unpack", ("yaml", "safe_load"): "yaml_safe_load", ("yaml", "dump"): "yaml_dump"}
 
 REWRITES_DONE = {}  # module file -> number of rewritten call sites
@@ -231,6 +232,22 @@ def sym_to_numpy(obj, dtype=None, *a, **kw):
     return obj.to_numpy(dtype, *a, **kw)
 
 
+def _sym_np_mk(fn):
+    def mk(x, *a, **kw):
+        dtype = kw.get("dtype", a[0] if a else None)
+        cells, _shape = _cells(x)
+        if dtype is not None and cells is not None and _has_sym(cells):
+            arr = np.array(x, dtype=object)  # proxies cannot live in a typed array: a fresh object array
+            return sym_astype(arr, dtype)
+        return fn(x, *a, **kw)  # concrete data: exactly the original function (np.asarray keeps returning views)
+
+    return mk
+
+
+sym_np_asarray = _sym_np_mk(np.asarray)
+sym_np_array = _sym_np_mk(np.array)
+
+
 def sym_np_isnan(x, *a, **kw):
     if isinstance(x, SymNum):
         return False
@@ -336,6 +353,8 @@ IMPL = {
     "np_isnan": sym_np_isnan,
     "np_lcm": sym_np_lcm,
     "np_isclose": sym_np_isclose,
+    "np_asarray": sym_np_asarray,
+    "np_array": sym_np_array,
     "np_isfinite": sym_np_isfinite,
     "unpack": sym_unpack,
     "yaml_safe_load": sym_yaml_safe_load,
